@@ -5,12 +5,16 @@ package main
 
 import (
 	"bytes"
+	"crypto/ecdsa"
+	"crypto/elliptic"
+	"crypto/rand"
 	"crypto/x509"
 	"crypto/x509/pkix"
 	"encoding/asn1"
 	"encoding/base64"
 	"encoding/hex"
 	"encoding/json"
+	"encoding/pem"
 	"fmt"
 	"io/fs"
 	"os"
@@ -473,7 +477,19 @@ func manipScenarios(yield func(any)) {
 				sub["manipulations"] = m
 			}
 			ents := []entitySpec{{alias: "root", path: "root.yaml", issuer: -1, cfg: root}, {alias: "sub", path: "ca/sub.yaml", issuer: 0, cfg: sub}}
-			yield(PkiIn{Tz: 0, Strat: 9, Files: filesOf(ents)})
+			files := filesOf(ents)
+			if combo == 0 && mask%2 == 1 || mask >= 48 {
+				// the subordinate brings a certificate request instead of a key: manipulations apply to it all the same
+				k := must(ecdsa.GenerateKey(elliptic.P256(), rand.Reader))
+				csr := must(x509.CreateCertificateRequest(rand.Reader, &x509.CertificateRequest{Subject: pkix.Name{CommonName: "requested"}}, k))
+				files = append(files, FileIn{Path: "ca/sub.pem", Kind: "pem", Text: string(pem.EncodeToMemory(&pem.Block{Type: "CERTIFICATE REQUEST", Bytes: csr})), Age: 50})
+				sub["keyAlgorithm"] = "P-256"
+				sub["manipulations"] = m
+				delete(root, "manipulations")
+				files = filesOf(ents)
+				files = append(files, FileIn{Path: "ca/sub.pem", Kind: "pem", Text: string(pem.EncodeToMemory(&pem.Block{Type: "CERTIFICATE REQUEST", Bytes: csr})), Age: 50})
+			}
+			yield(PkiIn{Tz: 0, Strat: 9, Files: files})
 		}
 	}
 }
@@ -481,7 +497,9 @@ func manipScenarios(yield func(any)) {
 // profileValidityScenarios: what an entity without a validity of its own inherits from its profile, for profiles
 // with and without extensions, static and run-relative validity forms, and entities with and without own extensions
 func profileValidityScenarios(yield func(any)) {
-	validities := []J{{"from": "2031-03-01", "until": "2031-09-15"}, {"from": "2030-01-31", "duration": "1m"}, {"duration": "18m"}, {"until": "2044-02-29"}, {"from": "2049-12-31", "duration": "1d"}}
+	validities := []J{{"from": "2031-03-01", "until": "2031-09-15"}, {"from": "2030-01-31", "duration": "1m"}, {"duration": "18m"}, {"until": "2044-02-29"}, {"from": "2049-12-31", "duration": "1d"},
+		// outside the range of 64-bit nanosecond counts (1677-09-21 … 2262-04-11) and at the limits of the year range
+		{"from": "1600-01-01", "until": "9999-12-31"}, {"from": "2262-04-13", "duration": "1d"}, {"until": "3000-01-01"}, {"from": "1677-09-20", "duration": "300y"}, {"from": "0001-01-01", "until": "1949-12-31"}}
 	for _, v := range validities {
 		for _, profExt := range []bool{false, true} {
 			for _, ownExt := range []bool{false, true} {
